@@ -59,6 +59,7 @@ import (
 	"time"
 
 	"github.com/AdguardTeam/AdGuardHome/internal/dhcpsvc"
+	"github.com/AdguardTeam/golibs/netutil"
 	"github.com/insomniacslk/dhcp/dhcpv4"
 	"github.com/insomniacslk/dhcp/dhcpv6"
 	"github.com/insomniacslk/dhcp/iana"
@@ -122,6 +123,18 @@ const (
 var (
 	c05dSelf    = net.IP{10, 77, 0, 2}
 	c05dHosts   = []string{"", "", "alpha", "beta", "Gamma", "my_host", "dup", "printer"}
+	// round 4: hostile names, sent both as the DHCP clients' option 12 and through
+	// the static-lease API: whatever is STORED must be empty or a valid hostname
+	// (Proofs/Dhcp4Wire.v, hosts_valid_reachable), because PTR answers are built
+	// from it
+	c05dHostile = []string{
+		strings.Repeat("a", 63), strings.Repeat("a", 64), strings.Repeat("d", 200), "a..b", "front..desk", "frontdesk.",
+		".lead", "..", ".", "-lead", "trail-", "a b", "tab\there", "semi;colon", "пример", "bücher", "xn--80ak6aa92e",
+		"123", "1.2.3.4", "host.123", "UPPER.Case", "a_b.c_d",
+		strings.Repeat("a", 63) + "." + strings.Repeat("a", 63) + "." + strings.Repeat("a", 63) + "." + strings.Repeat("e", 58),
+		strings.Repeat("a", 63) + "." + strings.Repeat("a", 63) + "." + strings.Repeat("a", 63) + "." + strings.Repeat("e", 62),
+		strings.Repeat("h", 63) + "." + strings.Repeat("i", 64),
+	}
 	c05dPeer4   = &net.UDPAddr{IP: net.IPv4bcast, Port: dhcpv4.ClientPort}
 	c05dPeer6   = &net.UDPAddr{IP: net.ParseIP("fe80::1"), Port: dhcpv6.DefaultClientPort}
 	c05dV6Start = net.ParseIP("2001:db8::f0")
@@ -428,6 +441,11 @@ func TestVerifC05Stress(t *testing.T) {
 	}
 	step4 := func(r *c05dRand, c *c05dClient4) {
 		host := c05dHosts[r.intn(len(c05dHosts))]
+		if r.intn(4) == 0 {
+			if host = c05dHostile[r.intn(len(c05dHostile))]; len(host) > 255 {
+				host = host[:255] // one option carries at most 255 octets
+			}
+		}
 		discover := func() {
 			var reqIP net.IP
 			if r.intn(4) == 0 {
@@ -643,6 +661,9 @@ func TestVerifC05Stress(t *testing.T) {
 			l.mac = c05dMAC(4, r.intn(c05dV4Workers), r.intn(c05dV4Clients))
 		}
 		l.host = c05dHosts[r.intn(len(c05dHosts))]
+		if r.intn(3) == 0 {
+			l.host = c05dHostile[r.intn(len(c05dHostile))]
+		}
 		if v6 {
 			last := byte(0x10 + r.intn(16))
 			if r.intn(3) == 0 {
@@ -812,6 +833,24 @@ func TestVerifC05Stress(t *testing.T) {
 			}
 		},
 		func(r *c05dRand) { _ = s.Leases() },
+		// round 4: PTR answers are built from the stored names, so every name in the
+		// DHCPv4 table is empty or a valid hostname at every moment, whatever the
+		// clients and the static-lease API were given
+		func(r *c05dRand) {
+			for _, x := range s.srv4.GetLeases(LeasesAll) {
+				if x.Hostname == "" {
+					continue
+				}
+				if err := netutil.ValidateHostname(x.Hostname); err != nil {
+					h := x.Hostname
+					if len(h) > 80 {
+						h = fmt.Sprintf("%s...(%d octets)", h[:40], len(h))
+					}
+					note(&rep.Malformed, "dhcpv4 lease %s %s (static=%v) stores the hostname %q, which is no valid hostname (%v): a PTR query for the address cannot be answered with a well-formed response",
+						x.HWAddr, x.IP, x.IsStatic, h, err)
+				}
+			}
+		},
 		func(r *c05dRand) { _ = s.srv4.GetLeases(GetLeasesFlags(1 + r.intn(3))) },
 		func(r *c05dRand) { _ = s.srv6.GetLeases(GetLeasesFlags(1 + r.intn(3))) },
 		func(r *c05dRand) {
